@@ -174,3 +174,38 @@ func VerifC07NothingBeforeLock() {
 		rt.Assert(rt.BytesEq(atLock, old), "contents-untouched-until-lock-requested")
 	}
 }
+
+// VerifC07ReadDuringWrite: a Read issued while another holder is in the
+// middle of a Write or Transform (the file truncated, any proper prefix of
+// the new contents in place). The reader's lock request is where it waits:
+// the model lets the other holder finish there. Read must then return
+// exactly the complete new contents, never the empty or partial
+// intermediate state, and it must have asked for the lock.
+func VerifC07ReadDuringWrite() {
+	L := rt.Param("L", 3)
+	nw := rt.Bytes(rt.IntRange(1, L))
+	k := rt.IntRange(0, len(nw)-1)
+	fsys := vSetup(append([]byte{}, nw[:k]...))
+	fsys.Short = rt.Bool()
+	requested := false
+	fsys.FlockFn = func(fd int, how int) error {
+		if !requested {
+			requested = true
+			fsys.File(vPath).Data = append([]byte{}, nw...)
+		}
+		return nil
+	}
+	if k == 0 {
+		rt.Reach("truncated")
+	} else {
+		rt.Reach("partly-written")
+	}
+	got, err := Read(vPath)
+	rt.Assert(err == nil, "read-ok")
+	rt.Assert(requested, "read-asks-for-the-lock")
+	rt.Assert(len(got) == len(nw), "read-never-returns-a-write-in-progress-length")
+	if len(got) == len(nw) {
+		rt.Assert(rt.BytesEq(got, nw), "read-never-returns-a-write-in-progress")
+	}
+	rt.Assert(fsys.OpenHandles(vPath) == 0, "no-descriptor-left-open")
+}
